@@ -189,3 +189,23 @@ Example c17_nonvacuous_url :
   request_path [47;114;47;105] [46;47;97;32;195;169] = Some [47;114;47;97;37;50;48;37;67;51;37;65;57] /\ (* "./a é" on /r/i -> /r/a%20%C3%A9 *)
   url_join_path [47;114;47;115;47] [46;46;47;46;46;47;46;46;47;120] = Some [47;120].      (* the model pops, never above "/" *)
 Proof. repeat split; vm_compute; reflexivity. Qed.
+
+(* ====================================================================================
+   The consumers.  [joined_fields c module] is every string consumer c passes to Path::join or
+   join_rel for the module (C17/Consumers.v); Gen/JoinSites.v is every `.join(` / `join_rel(`
+   call of the non-test code of breakpad-symbols/src/{lib,http}.rs, regenerated on every run. *)
+From RM Require Import C17.Consumers Gen.JoinSites.
+
+(* every string a modelled consumer joins onto a symbol directory, a cache directory or a
+   server URL is a safe relative path: all byte strings, hex ids, every consumer *)
+Theorem c17_consumers_join_only_safe : forall c code_file debug_file dbg_id code_id,
+  opt_hex dbg_id -> opt_hex code_id ->
+  forall r s, In (r, s) (joined_fields c code_file debug_file dbg_id code_id) -> safe_rel s.
+Proof. exact consumers_join_only_safe. Qed.
+Print Assumptions c17_consumers_join_only_safe.
+
+(* the join sites of the source are exactly the modelled ones (a new or changed join site —
+   e.g. joining FileLookup.debug_file — fails here, and Coq prints both lists) *)
+Theorem c17_join_sites_modelled : join_sites = map fst modelled_join_sites.
+Proof. vm_compute. reflexivity. Qed.
+Print Assumptions c17_join_sites_modelled.
